@@ -317,6 +317,39 @@ Ltac py_unfold_in H :=
   cbv beta zeta delta [py_len py_slice_from py_slice_to py_bytes py_range_map py_floordiv py_mod
                        py_floordiv_N py_mod_N py_int_truediv py_int_truediv_N py_index] in H.
 
+(** Closing tactic for the equality lemmas of GenEq.v: the generated term and the model term compute the
+    same lengths / indices / slices up to re-association of the arithmetic, let-bound intermediates and a
+    common sub-expression hoisted out of (or pushed into) the branches of an [if].  It unfolds the
+    generated lets and the PyOps / Bytes renamings of slicing, case-splits on every tested boolean once,
+    peels equal heads with [f_equal] and leaves linear arithmetic on nat / N (with the euclidean-division
+    hook) to [lia].  It proves no equation that is not linear-arithmetically valid: an off-by-one in a
+    bound leaves an unprovable [lia] goal. *)
+Ltac py_norm :=
+  cbv beta zeta delta [py_len py_slice py_slice_from py_slice_to py_bytes py_range_map py_floordiv py_mod
+                       py_floordiv_N py_mod_N py_int_truediv py_int_truediv_N py_index py_concat slice nlen];
+  cbn [app]; rewrite ?Nat.sub_0_r; cbn [skipn].
+
+Ltac py_split_ifs :=
+  repeat match goal with
+  | |- context [if ?c then _ else _] => let E := fresh "Ec" in destruct c eqn:E; cbv beta iota zeta
+  end.
+
+Ltac py_close :=
+  first [ reflexivity | lia | congruence
+        | match goal with |- (_, _) = (_, _) => f_equal; py_close end
+        | match goal with |- firstn _ _ = firstn _ _ => f_equal; py_close end
+        | match goal with |- skipn _ _ = skipn _ _ => f_equal; py_close end
+        | match goal with |- _ :: _ = _ :: _ => f_equal; py_close end
+        | match goal with |- _ ++ _ = _ ++ _ => f_equal; py_close end
+        | match goal with |- map _ _ = map _ _ => f_equal; py_close end
+        | match goal with |- seq _ _ = seq _ _ => f_equal; py_close end
+        | match goal with |- N.to_nat _ = N.to_nat _ => f_equal; py_close end
+        | match goal with |- N.of_nat _ = N.of_nat _ => f_equal; py_close end ].
+
+Ltac py_arith :=
+  first [ reflexivity
+        | timeout 30 (py_norm; py_split_ifs; py_close) ].
+
 (** *** equality tests *)
 
 Lemma list_eqb_eq {A} (eqb : A -> A -> bool) :
